@@ -152,6 +152,8 @@ def run(ctx):
                 dist["size_bucket"][bk] = dist["size_bucket"].get(bk, 0) + 1
     ncmp = 0
     mism = []
+    malf_mism = []   # disagreements on MALFORMED histories: outside the property (requests inconsistent with earlier
+                     # results are UB for the caller); recorded in the evidence, never a broken tie
     viol_done = set()
     nontrivial = set()
     samples = []
@@ -177,7 +179,7 @@ def run(ctx):
             if "trap:allocerror(" in mline:
                 r_cmp = re.sub(r" \| live=\d+$", "", rline)
             if r_cmp != mline:
-                mism.append((prof, cls, case, rline, mline))
+                (malf_mism if cls == "malformed" else mism).append((prof, cls, case, rline, mline))
             if cls != "malformed":
                 st, why, key = L.holds(case, rline)
                 if st == "fail" and key not in viol_done and len(ctx.violations) < MAX_VIOL:
@@ -208,7 +210,8 @@ def run(ctx):
         "evaluations": ncmp, "distinct_nontrivial": len(nontrivial),
         "rule": "seeded histories of 1..24 requests (cabi_realloc alloc/grow/shrink incl. (0,0) and pointer-ignored forms, byte stores/loads, Cleanup::new/drop/forget, cabi_dealloc incl. size 0), alignments 2^0..2^16, sizes 0..2^20 (zero, small, powers of two +-1, medium, large), each run in the debug and the release profile; classes: valid, fail (one allocator call made to return null), shrink (known class: live block shrunk to 0), malformed (one inconsistent request; release only). non-trivial = reallocates a live non-empty block or drops a Cleanup; distinct = distinct case strings",
         "samples": samples,
-        "traces_validated_against_impl": ncmp, "model_mismatches": len(mism),
+        "traces_validated_against_impl": ncmp, "model_mismatches": len(mism), "malformed_history_disagreements": len(malf_mism),
+        "malformed_history_disagreement_sample": [list(x) for x in malf_mism[:1]],
         "distribution": dist, "corpus_cases": ncorpus,
         "code_under_test_sha": vf.canon_hash(cut), "code_under_test_lines": len(cut.split("\n")),
     })
